@@ -70,25 +70,17 @@ func (c *ctxT) c01Genesis(facts map[string]any) string {
 				}
 			case *ast.ForStmt:
 				if x.Body != nil && strings.Contains(norm(x.Cond), "len(state.Attestations)") {
-					switch {
-					case callsMethod(x.Body, "SetAttestation") && !callsMethod(x.Body, "SetLastEventNonceByOracle"):
-						if strings.Contains(norm(x.Body), "k.SetAttestation(ctx, claim.GetEventNonce(), claim.ClaimHash(), &att)") {
-							kind = ".loadAtts"
-						} else {
-							kind = ".unknown"
-						}
-					case callsMethod(x.Body, "SetLastEventNonceByOracle") && !callsMethod(x.Body, "SetAttestation"):
-						// for _, vote := range att.Votes { last := k.GetLastEventNonceByOracle(ctx, oracle); if claim.GetEventNonce() > last { Set… } }
-						b := norm(x.Body)
-						if strings.Contains(b, "for _, vote := range att.Votes {") &&
-							strings.Contains(b, "last := k.GetLastEventNonceByOracle(ctx, oracle) if claim.GetEventNonce() > last {") &&
-							strings.Contains(b, "k.SetLastEventNonceByOracle(ctx, oracle, claim.GetEventNonce())") {
-							kind = ".rebuildLastNonce"
-						} else {
-							kind = ".unknown"
-						}
+					// the WHOLE loop body must be the one the model interprets (every attestation, every vote, `>` against the
+					// effective last nonce); anything else is `.unknown`
+					const unpack = `att := state.Attestations[i] claim, err := types.UnpackAttestationClaim(k.cdc, &att) if err != nil { panic("couldn't cast to claim") } `
+					switch norm(x.Body) {
+					case "{ " + unpack + "k.SetAttestation(ctx, claim.GetEventNonce(), claim.ClaimHash(), &att) }":
+						kind = ".loadAtts"
+					case "{ " + unpack + "for _, vote := range att.Votes { oracle := sdk.MustAccAddressFromBech32(vote) last := k.GetLastEventNonceByOracle(ctx, oracle) if claim.GetEventNonce() > last { k.SetLastEventNonceByOracle(ctx, oracle, claim.GetEventNonce()) k.SetLastEventBlockHeightByOracle(ctx, oracle, claim.GetBlockHeight()) } } }":
+						kind = ".rebuildLastNonce"
 					default:
 						kind = ".unknown"
+						facts["C01.genesisUnknownLoop"] = norm(x.Body)
 					}
 				}
 			}
